@@ -319,8 +319,22 @@ def load_input(spec):
     if spec[0] == 'host':
         return HOSTS[spec[1]]
     if spec[0] == 'xhost':
-        return EXTRA_HOSTS[spec[1]]
+        return QT_HOST if spec[1] == 'QT' else EXTRA_HOSTS[spec[1]]
     return spec[1]
+
+
+QT_HOST = b"""#include <QObject>
+class QtHost : public QObject { Q_OBJECT public: void wire( QObject * a , QObject * b ); };
+void QtHost::wire( QObject * a , QObject * b )
+{
+   connect( a , SIGNAL( valueChanged( int * , const QString & ) ) , b , SLOT( setValue( int * , const QString & ) ) );
+   connect(a,SIGNAL(done(int*,QList<int>&)),b,SLOT(finish(int*,QList<int>&)));
+}
+void after( char * , int & , const char * const * , QList<int> & );
+void after2(char*,int&,const char*const*,QList<int>&);
+int ( * fp2 )( int , char * , long & ) = nullptr;
+static int use( int ( a ) , int b ) { return after3( ( a ) , b ) ; }
+""" + EXTRA_HOSTS['CPP']
 
 
 def _case(t):
@@ -416,6 +430,22 @@ def check(ctx):
             for val in VALS:
                 for h in (hosts if not quick else fr.sample(hosts, 3)):
                     tasks.append(('single:%s=%s:host-%s' % (n, val, h[1]), h, h[1], {n: val}))
+    # the Qt SIGNAL/SLOT override left at its default (on): pairs inside the macros are skipped (flag exported by the hook), everything
+    # after a macro obeys the configured values again
+    QT = {'use_options_overriding_for_qt_macros': 'true'}
+    qt_files = [(rel, lang) for rel, lang in files if lang == 'CPP' and re.search(rb'\b(SIGNAL|SLOT)\s*\(', corpus.read(rel))]
+    ctx.count('qt_corpus_files', len(qt_files))
+    for n in sp:
+        for val in VALS:
+            tasks.append(('qt-single:%s=%s:xhost-QT' % (n, val), ('xhost', 'QT'), 'CPP', dict(QT, **{n: val})))
+    for ci, a in enumerate(code_words(sp, rng(PROP, 'words'))):
+        tasks.append(('qt-code:%d:xhost-QT' % ci, ('xhost', 'QT'), 'CPP', dict(a, **QT)))
+        for rel, lang in qt_files:
+            tasks.append(('qt-code:%d:%s' % (ci, rel), ('corpus', rel), lang, dict(a, **QT)))
+    for k in range(40 if quick else 400):
+        jr = fixed_rng(PROP, 'qtjoint%d' % k)
+        a = {n: jr.choice(VALS) for n in sp}
+        tasks.append(('qt-joint:%d:xhost-QT' % k, ('xhost', 'QT'), 'CPP', dict(a, **QT)))
     # pairwise-separating joint family (6 configs) and seeded joint draws, over seeded corpus files and the hosts
     fam = code_words(sp, rng(PROP, 'words'))
     nfiles = 150 if quick else 600
